@@ -147,6 +147,8 @@ fn now() -> u64 {
 }
 
 struct Ctx {
+    /// the caller's reusable haystack buffer (see RunSpec::reuse_input_buffer)
+    buf: String,
     fresh: bool,
     sim: Arc<SimThread>,
     spec: Arc<RunSpec>,
@@ -458,12 +460,23 @@ impl Ctx {
             req.show()
         ));
         self.begin_call(Some(&obj));
+        // the haystack reaches the library either as its own string or through the
+        // caller's reused buffer (same address for different contents)
+        let mut buf = std::mem::take(&mut self.buf);
+        let hay: &str = if self.spec.reuse_input_buffer {
+            buf.clear();
+            buf.push_str(input);
+            &buf
+        } else {
+            input
+        };
         let (r, steps) = exec::guarded(self.crash_at(op, 0), || match method {
-            Method::IsMatch => exec::is_match(&obj.re.0, input),
-            Method::ReplaceAll => exec::replace_all(&obj.re.0, input, repl),
+            Method::IsMatch => exec::is_match(&obj.re.0, hay),
+            Method::ReplaceAll => exec::replace_all(&obj.re.0, hay, repl),
             _ => unreachable!(),
         });
         self.end_call();
+        self.buf = buf;
         let refres = self.reference(&req);
         self.check(
             op,
@@ -600,14 +613,23 @@ impl Ctx {
             it
         ));
         self.begin_call(Some(&obj));
+        let mut buf = std::mem::take(&mut self.buf);
+        let hay: &str = if self.spec.reuse_input_buffer {
+            buf.clear();
+            buf.push_str(input);
+            &buf
+        } else {
+            input
+        };
         let (r, steps) = exec::guarded(self.crash_at(op, 0), || {
-            exec::open(&obj.re.0, method, input).map(|i| {
+            exec::open(&obj.re.0, method, hay).map(|i| {
                 // SAFETY: the iterator borrows from `obj.re`, which lives in an Arc stored
                 // next to it in the same IterSlot and is dropped after it.
                 unsafe { std::mem::transmute::<StrIter<'_>, StrIter<'static>>(i) }
             })
         });
         self.end_call();
+        self.buf = buf;
         let refres = self.reference(&req);
         let (got, iter) = match r {
             Ok(Ok(i)) => (Ok("Ok(iter)".to_string()), Some(i)),
@@ -1180,6 +1202,7 @@ pub fn run(
             }
             let r = std::panic::catch_unwind(std::panic::AssertUnwindSafe(|| {
                 thread_main(Ctx {
+                    buf: String::with_capacity(256),
                     fresh: !use_pool,
                     sim: sim_c,
                     spec: spec_c,
